@@ -369,10 +369,13 @@ TEXT["C16"] = {
              "handler run EXACTLY once and the broker receiving exactly PUBREC then PUBCOMP, under ANY pattern of at most RetryCount "
              "failed rounds in each of the two phases (PUBLISH/PUBREC, PUBREL/PUBCOMP; a round loses the gateway's datagram or the "
              "client's answer); C16_qos2_completes_exactly_once_with_one_loss (the four single-loss positions, exact traces); "
-             "C16_register_step_survives_a_lost_regack (+ the other loss positions in ComposeLoss2.v); "
+             "C16_new_topic_qos1_survives_any_loss_pattern: the REGISTER step too - a QoS 1 message on a name without topic ID under any "
+             "pattern of at most RetryCount failed rounds in the REGISTER/REGACK phase and in the PUBLISH/PUBACK phase is delivered "
+             "(handler once per PUBLISH that arrives: QoS 1 is at-least-once), acknowledged to the broker exactly once, and client and "
+             "gateway end with the same new registration; C16_register_step_survives_a_lost_regack (single-loss positions); "
              "C16_sleep_survives_a_lost_disconnect_reply (a lost reply to the sleep DISCONNECT does not split the session). Arbitrary QoS 2 loss "
              "patterns and duplication are checked by the end-to-end monitor on "
              "the real client + real gateway joined by a lossy link, against the composed model.",
-    "note": COMMON_NOTE + " Partial: liveness is proved for QoS 1 and QoS 2 on short topics under any loss pattern within the budget, for the REGISTER step with one lost datagram; duplication and losses in the REGISTER step beyond one are tested (generated fault lists within and beyond the budget), not proved.",
+    "note": COMMON_NOTE + " Partial: liveness is proved for QoS 1 and QoS 2 on short topics under any loss pattern within the budget, incl. the REGISTER step of a QoS 1 message; duplication and the REGISTER step of QoS 2 messages are tested (generated fault lists within and beyond the budget), not proved.",
     "technique": "Coq step lemmas on the retry timer (gateway) and PUBREL handling (client) + end-to-end differential execution over a lossy link with a liveness monitor",
 }
